@@ -331,6 +331,24 @@ def y2(rep, src):
     rep.instance("Y2", key, {"chain": names, "groups_by_unit": bool(gb), "sums_weight": bool(wsum)})
     if not gb:
         rep.violation("Y2", key, "the rebuilt Reduce does not group by the privacy-unit column", f.where())
+    else:
+        # the grouping call must be effective: ReduceBuilder::with_group_by_column adds the GROUP BY unconditionally, or (if it skips columns
+        # that are already outputs) no output named like the unit is added before it in this chain
+        wg = [h for h in src.find_fns(name="with_group_by_column", file="relation/builder.rs") if (h.self_ty or "").startswith("ReduceBuilder")]
+        conditional = None
+        if len(wg) == 1:
+            from .core import walk_guards as _wg2
+
+            gcalls = [(x, gd) for x, gd in _wg2(wg[0].body) if x["k"] == "mcall" and x["m"] == "group_by"]
+            rets = [x for x in walk(wg[0].body) if x["k"] == "return"]
+            conditional = bool(rets) or not gcalls or any(gd for _x, gd in gcalls)
+        idx = ms.index(gb[0])
+        pu_before = [c for c, v, m in with_pairs(ms) if c == "pu" and ms.index(m) < idx]
+        rep.instance("Y2", key + "@effective", {"with_group_by_column_conditional": conditional, "unit_output_added_before": bool(pu_before)})
+        if conditional is None:
+            rep.undecidable("Y2", key + "@effective", "ReduceBuilder::with_group_by_column not found", f.where())
+        elif conditional and gb[0]["m"] == "with_group_by_column" and pu_before:
+            rep.violation("Y2", key + "@effective", "with_group_by_column skips columns that are already outputs (early return) and the unit column is added as an output before it: the tracked Reduce is not grouped by the unit", f.where())
     if not wsum:
         rep.violation("Y2", key, "the rebuilt Reduce does not sum the privacy-unit weight", f.where())
     inp = [m for m in ms if m["m"] == "input"]
